@@ -220,6 +220,8 @@ class Model:
         for node in mod.tree.body:
             if isinstance(node, ast.Assign) and len(node.targets) == 1 and isinstance(node.targets[0], ast.Name):
                 mod.globals.setdefault(node.targets[0].id, node.value)
+            elif isinstance(node, ast.AnnAssign) and isinstance(node.target, ast.Name) and node.value is not None:
+                mod.globals.setdefault(node.target.id, node.value)
         self._index_body(mod, mod.tree.body, mod.modname, None, None)
 
     def _index_body(self, mod, body, prefix, parent, cls):
